@@ -57,6 +57,12 @@ bool DyndepLoader::LoadDyndeps(Node* node, DyndepFile* ddf,
       return false;
     }
 
+    // The edge is among the out-edges once for every time the dyndep file is
+    // one of its inputs: twice when a depfile or the deps log names the file
+    // that the manifest already lists.  Update it only once.
+    if (ddi->second.used_)
+      continue;
+
     ddi->second.used_ = true;
     Dyndeps const& dyndeps = ddi->second;
     if (!UpdateEdge(edge, &dyndeps, err)) {
